@@ -20,7 +20,12 @@ for d in sorted(glob.glob(os.path.join(root, "seeded", "C*-*"))):
     ob = re.sub(r"\s+at\s+\S+:\d+.*$", "", ob)[:130]
     ok = all(c.get(k) for k in ("builds", "suite_passes_with_change", "demo_fails_with_change", "demo_passes_without_change"))
     det = "**MISSED**" if not c.get("detected_by_check") else ""
-    rows.append("| %s%s | %s | %s | %s `%s` |" % (sid, "" if ok else " (unconfirmed)", what, needs, det, ob))
+    label = "" if ok else " (unconfirmed)"
+    if m.get("superseded"):
+        label = " (superseded)"
+    if m.get("rejected"):
+        label = " (rejected)"
+    rows.append("| %s%s | %s | %s | %s `%s` |" % (sid, label, what, needs, det, ob))
 table = "\n".join(rows)
 if "-w" in sys.argv:
     p = os.path.join(root, "DESIGN.md")
